@@ -19,25 +19,25 @@ CLAIMS = {
          "Decided statically: guard arithmetic on decoded counts cannot wrap in a narrow unsigned type (E2); for every WKB/EWKB byte, scanner and stream decoder, the WKT parsers, the GeoJSON geometry decoders and the MVT decoder, and every input length 0..24 (thorough 0..64): no certain index/slice/nil fault on a path whose branches depend only on attacker-chosen values, and no make() sized by a decoded count beyond 4 x input + 65536 (A). NOT decided: termination, long inputs, total allocation as a number.",
          "DESIGN.md §4 C05"),
  "C06": ("static analysis: inclusion-based points-to (fresh-result B2, no-write B1), abstract interpretation over kinds x degenerate shapes (A), loop lint (D2), closed-box predicate table (T10)",
-         "Decided statically: every Clone result is fresh at every nesting level and Clone never writes its argument (B1/B2, all inputs); no certain fault for nil/empty/singleton receivers of the core methods (A); element loops complete (D2); Bound.IsEmpty/Contains/Intersects compare the same axis, strictly and in the rejecting direction (a one-point bound is not empty, the boundary is inside, touching boxes intersect) (T10). NOT decided: lattice laws, tightness of Bound, orientation sign.",
+         "Decided statically: every Clone result is fresh at every nesting level and Clone never writes its argument (B1/B2, all inputs); no certain fault for nil/empty/singleton receivers of the core methods (A); element loops complete (D2); Bound.IsEmpty/Contains/Intersects compare the same axis, strictly and in the rejecting direction (a one-point bound is not empty, the boundary is inside, touching boxes intersect) (T10). NOT decided: symmetry/transitivity of Equal, associativity and absorption of Union beyond the tight-box clause, the sign of Orientation (shoelace arithmetic), shapes larger than the enumerated ones.",
          "DESIGN.md §4 C06"),
  "C07": ("static analysis: points-to effects (B1 no-write, B2 fresh-result) for the line-clipping entries, abstract interpretation over line shapes (A), segment-loop lint (D3), region-code table extraction and open-flag flow (T7)",
-         "Decided statically for all inputs: clip.LineString/MultiLineString/MultiPoint never write their argument and the returned pieces never alias it (B1/B2); no certain fault for nil/empty/1..4-vertex lines (A); the clipping loop visits every segment (D3); region codes: closed variant strict (boundary inside), open variant non-strict, same bit per edge everywhere, intersect returns the box edge coordinate unmodified, the open option reaches the open code (T7). NOT decided: that the pieces are exactly the inside part, order, length, idempotence, open-bound semantics.",
+         "Decided statically for all inputs: clip.LineString/MultiLineString/MultiPoint never write their argument and the returned pieces never alias it (B1/B2); no certain fault for nil/empty/1..4-vertex lines (A); the clipping loop visits every segment (D3); region codes: closed variant strict (boundary inside), open variant non-strict, same bit per edge everywhere, intersect returns the box edge coordinate unmodified, the open option reaches the open code (T7). NOT decided: where exactly a cut segment meets the box (the interpolated coordinate) and hence total length and idempotence; segments that cross the box without a vertex inside; the strictness of the open-box comparison beyond the region-code table (T7).",
          "DESIGN.md §4 C07"),
  "C08": ("static analysis: abstract interpretation over kinds x degenerate shapes with shape-decided postconditions (A, A-post/H4), loop lints (D1-D3, D5 no early exit from accumulating loops), region-code tables (T7)",
-         "Decided statically: no certain fault through any clip entry for any kind x degenerate shape; clip.Geometry yields a nil interface for nil/empty input and never a typed nil inside a non-nil interface (the form mvt Layer.Clip tests); member loops complete. NOT decided: enclosed-region preservation, area additivity.",
+         "Decided statically: no certain fault through any clip entry for any kind x degenerate shape; clip.Geometry yields a nil interface for nil/empty input and never a typed nil inside a non-nil interface (the form mvt Layer.Clip tests); member loops complete. NOT decided: that the clipped ring encloses exactly the inside region (interpolated coordinates, area additivity); rings larger than the enumerated ones.",
          "DESIGN.md §4 C08"),
  "C09": ("static analysis: abstract interpretation of the composing functions with their callees uninterpreted (A-comp: every call of rayIntersect / RingContains / PolygonContains forks the path per possible answer and is logged with argument identities; the result of every path is compared with the stated combination of the logged answers)",
          "Decided statically, for all coordinates and rings of 1..5 vertices, polygons of 1..4 rings, multi-polygons of 0..3 members: RingContains consults every edge of the implicitly closed ring exactly once (consecutive pairs and the closing pair), a boundary hit on any edge gives true, otherwise the result is the parity of the crossings; PolygonContains = outer ring and no hole, MultiPolygonContains = any member, and no answer is returned before the consulted members determine it. NOT decided: what rayIntersect answers for a single segment (degenerate alignments, one-ulp nudge, slope comparison), hence not the numerical independence from start vertex and direction; sizes beyond those enumerated.",
          "DESIGN.md §4 C09"),
  "C10": ("static analysis: segment/member loop-completeness lint (D2, D3), abstract interpretation over kinds x shapes (A)",
-         "Decided statically: every segment loop visits every consecutive pair, member loops every member (D2/D3); no certain fault on any kind/shape (A). NOT decided: every numeric identity.",
+         "Decided statically: every segment loop visits every consecutive pair, member loops every member (D2/D3); no certain fault on any kind/shape (A). NOT decided: the shoelace, segment-distance and point-distance formulas themselves, floating-point rounding, shapes larger than the enumerated ones.",
          "DESIGN.md §4 C10"),
  "C11": ("static analysis: abstract interpretation of every public quadtree method over receiver states x boundary arguments with postconditions (A, A-post), reject-before-write dominance on points-to effects (B3), quadtree cell tables (T9), closed-box predicate tables (T10)",
-         "Decided statically: no certain fault in Add/Remove/Find/Matching/KNearest*/InBound* on a never-populated, one-point, two-level or emptied tree with k in 0..3, short/long buffers, nil/non-nil filters; empty-tree queries return nil, Remove reports false, k=0 returns nothing (A-post); every write of Add is dominated by the passing edge of the bound test, so a rejected add changes nothing (B3); add/childIndex/visit agree on the child-index bits, comparators and sub-cells (T9); cell pruning and the in-bound filter are strict closed-box tests (T10). NOT decided: answers after histories, pruning, ordering, removal pull-up.",
+         "Decided statically: no certain fault in Add/Remove/Find/Matching/KNearest*/InBound* on a never-populated, one-point, two-level or emptied tree with k in 0..3, short/long buffers, nil/non-nil filters; empty-tree queries return nil, Remove reports false, k=0 returns nothing (A-post); every write of Add is dominated by the passing edge of the bound test, so a rejected add changes nothing (B3); add/childIndex/visit agree on the child-index bits, comparators and sub-cells (T9); cell pruning and the in-bound filter are strict closed-box tests (T10). NOT decided: k-nearest answers, their order and the distance limit; that pointers pruned by distance are farther (a geometric argument); coincident points; histories longer than the enumerated ones.",
          "DESIGN.md §4 C11"),
  "C12": ("static analysis: abstract interpretation over kinds x shapes (A), loop lint (D2), points-to no-write analysis of the simplifier configuration (B1)",
-         "Decided statically: no certain fault for any kind x degenerate shape through every simplify entry (A); wrappers visit every member (D2); no simplify method writes its receiver, so a simplifier can be reused (B1). NOT decided: error bound, idempotence, minimum counts, monotonicity.",
+         "Decided statically: no certain fault for any kind x degenerate shape through every simplify entry (A); wrappers visit every member (D2); no simplify method writes its receiver, so a simplifier can be reused (B1). NOT decided: the Douglas-Peucker error bound and idempotence, monotonicity in the threshold, lines longer than the enumerated ones.",
          "DESIGN.md §4 C12"),
  "C13": ("static analysis: abstract interpretation of the tile methods with bit-level symbolic integers (each bit a constant, bit i of an unknown input, its negation, or unknown; shifts, masks, or/xor, conversions, +1 on even values, LeadingZeros exact) plus linear symbolic forms, judged against the quadtree identities (A-comp); outward-rounded float interval analysis of the point-to-tile mapping",
          "Decided statically for every X and Y at each zoom (quick: 7 zooms, thorough: 0..30): Quadkey interleaves the bits of X and Y and FromQuadkey inverts it; Children are the four distinct quadrants 2X+dx, 2Y+dy one zoom deeper, Parent and Siblings undo that; Valid is X,Y < 2^zoom; Contains is exactly the ancestor-or-self relation; SharedParent is the deepest common ancestor (first differing level of X or Y); Range and ChildrenInZoomRange are exactly the descendants; At returns X,Y < 2^zoom for every longitude in [-180,180] and every latitude (interval analysis). NOT decided: that At's tile contains the point, Center/Bound round trips, exact sharing of edge coordinates (float identities through the mercator formulas); zooms above 30.",
@@ -49,13 +49,13 @@ CLAIMS = {
          "Decided statically: every projection helper stores f(x[i]) to x[i] for the same index value and from no other element, the bound helper projects exactly its two corners, every member/feature loop is complete, no projected member result is dropped (R1), both tile projections floor each coordinate (H6), no certain fault for any kind/shape. NOT decided: every numeric inverse/rounding claim (mercator closed forms, half-pixel offsets, non-power-of-two extents).",
          "DESIGN.md §4 C15"),
  "C16": ("static analysis: abstract interpretation over 2-d kinds x shapes x orientations (A), loop lint (D2), region-code and corner-table extraction (T7, T8)",
-         "Decided statically: no certain fault for any kind x degenerate shape x both orientations (A); member loops complete (D2); smartclip's region code agrees with clip's and treats the boundary as outside (T7); nexts/pointFor corner tables decided completely: single 8-cycles, mutually inverse, correctly oriented, on their edges (T8). NOT decided: region equality, hole attachment.",
+         "Decided statically: no certain fault for any kind x degenerate shape x both orientations (A); member loops complete (D2); smartclip's region code agrees with clip's and treats the boundary as outside (T7); nexts/pointFor corner tables decided completely: single 8-cycles, mutually inverse, correctly oriented, on their edges (T8). NOT decided: that the wrapped rings enclose the same region as plain clipping (smartWrap, the endpoint walk), and the arithmetic of the containment test (polygonContains).",
          "DESIGN.md §4 C16"),
  "C17": ("static analysis: abstract interpretation over line shapes x enumerated counts with postconditions (A, A-post), segment loop lint (D3), last-iteration-wins lint (L2)",
-         "Decided statically: no certain fault (negative make, index) for nil/empty/1..4-vertex lines x N in {-1,0,1,2,3,free} (A); non-positive N returns nil and a line of fewer than two vertices comes back as it is (A-post); distance loops visit every segment (D3); the all-equal scan accumulates over every vertex (L2). NOT decided: exact count and spacing.",
+         "Decided statically: no certain fault (negative make, index) for nil/empty/1..4-vertex lines x N in {-1,0,1,2,3,free} (A); non-positive N returns nil and a line of fewer than two vertices comes back as it is (A-post); distance loops visit every segment (D3); the all-equal scan accumulates over every vertex (L2). NOT decided: ToInterval\'s count floor(length/d)+1, zero-length segments (segment lengths are taken positive), floating-point rounding, lines longer than the enumerated ones.",
          "DESIGN.md §4 C17"),
  "C18": ("static analysis: member/segment loop lints (D2, D3), abstract interpretation over kinds x shapes (A)",
-         "Thin claim. Decided statically: area/length loops cover every member/segment (D2/D3); no certain fault on any kind/shape (A). NOT decided: any identity on the sphere.",
+         "Decided statically: area/length loops cover every member/segment (D2/D3); no certain fault on any kind/shape (A). NOT decided: the spherical formulas themselves (distance, haversine, bearing, midpoint, ring area), floating-point rounding.",
          "DESIGN.md §4 C18"),
  "C19": ("static analysis: sound may-write analysis (inclusion-based, field-sensitive points-to over go/ssa) of the six query methods",
          "Decided statically for all schedules, all trees, all arguments: every store reachable from Find/Matching/KNearest/KNearestMatching/InBound/InBoundMatching targets a per-call allocation or the caller's buffer; no package-level variable is written. With no shared write there is no race and the tree is unchanged. Assumes the user's FilterFunc and Pointer.Point() are pure and buf is per-goroutine.",
